@@ -37,3 +37,95 @@ Definition check_build (c : build_case) : list string :=
         then ["viol:digest-differs/output-tarball-member-order"]
         else [("viol:digest-differs/" ++ b_dim c ++ ";first-differing-artifact=" ++ r)%string]
     end.
+
+(* ---- install_if (finding C01-F1) ---------------------------------------------
+   Universe of the harness: top depends on d1..dn; xi has install_if = [di].
+   f_orders: the distinct install orders observed (resolver in process, or
+   lib/apk/db/installed of repeated identical CLI builds); f_digests: image
+   manifest digest of every CLI build. *)
+Record installif_case := { f_kind : string; f_n : nat; f_orders : list (list string); f_digests : list string }.
+
+Definition digit (i : nat) : string :=
+  match i with 0 => "0" | 1 => "1" | 2 => "2" | 3 => "3" | 4 => "4" | 5 => "5" | 6 => "6" | 7 => "7" | 8 => "8" | _ => "9" end.
+Definition ii_deps (n : nat) : list string := List.map (fun i => ("d" ++ digit i)%string) (seq 1 n).
+Definition ii_map (n : nat) : list (string * list iipkg) :=
+  List.map (fun i => (("d" ++ digit i)%string, [{| ii_name := ("x" ++ digit i)%string; ii_if := [("d" ++ digit i)%string] |}])) (seq 1 n).
+Definition model_order (n : nat) (ord : list string) : list string :=
+  install_if_pass (ii_map n) (ii_deps n) ord ++ ["top"].
+
+Fixpoint all_same {A} (eqb : A -> A -> bool) (l : list A) : bool :=
+  match l with
+  | x :: ((y :: _) as t) => eqb x y && all_same eqb t
+  | _ => true
+  end.
+
+Definition check_installif (c : installif_case) : list string :=
+  let n := f_n c in
+  (* every observed order is the model's order for SOME iteration order of the map *)
+  tag_if (negb (forallb (fun o => existsb (fun ord => list_eqb String.eqb (model_order n ord) o) (perms (ii_deps n))) (f_orders c)))
+    "mismatch:install-order-is-not-a-model-order" ++
+  let orders_same := all_same (list_eqb String.eqb) (f_orders c) in
+  let digests_same := all_same String.eqb (f_digests c) in
+  if orders_same then
+    tag_if (negb digests_same) "viol:digest-differs/install-if-configuration-with-identical-install-order"
+  else
+    if String.eqb (f_kind c) "cli-build" && digests_same
+    then ["mismatch:install-orders-differ-but-image-digests-are-equal"]
+    else ["viol:digest-differs/install-if-order"].
+
+(* ---- canonicalisers, build date, schedule against the real functions ------- *)
+Inductive canon_case :=
+| KInit (pkgs extra brepos rrepos xbrepos xrrepos keyring xkeys : list string)
+        (o_world o_build_repos o_runtime_repos : string) (o_keys : list string)
+| KEnv (env : list (string * string)) (o_env : list string)
+| KArchs (ord o_archs : list string)
+| KReadDir (created o_names : list string)
+| KGroups (by_origin : list (N * list string)) (o_groups : list (N * string * list string))
+| KBde (flag : Z) (env : option (option Z)) (times : list Z) (o_bde : Z)
+| KSched (n : nat) (bad : option nat) (completion : list nat) (o_ok : bool) (o_installed : list string).
+
+Definition slash : ascii := ascii_of_nat 47.
+Fixpoint base_aux (s acc : string) : string :=
+  match s with
+  | EmptyString => acc
+  | String c t => if Ascii.eqb c slash then base_aux t EmptyString else base_aux t (acc ++ String c EmptyString)%string
+  end.
+Definition basename (s : string) : string := base_aux s EmptyString.
+
+Definition strs_eqb := list_eqb String.eqb.
+
+Definition check_canon (c : canon_case) : list string :=
+  match c with
+  | KInit pkgs extra br rr xb xr kr xk o_world o_brepos o_rrepos o_keys =>
+      tag_if (negb (String.eqb (world_file pkgs extra []) o_world)) "mismatch:world-file" ++
+      tag_if (negb (String.eqb (lines_file (canon_build_repos br rr xb xr)) o_brepos)) "mismatch:build-repositories-file" ++
+      tag_if (negb (String.eqb (repositories_file rr xr) o_rrepos)) "mismatch:runtime-repositories-file" ++
+      tag_if (negb (strs_eqb (List.map fst (keys_dir (List.map (fun k => (basename k, k)) (canon_keyring kr xk)))) o_keys)) "mismatch:keys-directory" ++
+      (* the validator on the observed files: sorted lines *)
+      tag_if (negb (sortedb sleb (canon_world pkgs extra []))) "viol:world-not-sorted"
+  | KEnv env o_env =>
+      tag_if (negb (strs_eqb (canon_env (env_with_defaults c01_env_defaults env)) o_env)) "mismatch:config-env" ++
+      tag_if (negb (sortedb sleb o_env)) "viol:config-env-not-sorted"
+  | KArchs ord o_archs =>
+      tag_if (negb (strs_eqb (canon_archs ord) o_archs)) "mismatch:index-architecture-order" ++
+      tag_if (negb (sortedb sleb o_archs)) "viol:index-architectures-not-sorted"
+  | KReadDir created o_names =>
+      tag_if (negb (strs_eqb (canon_readdir created) o_names)) "mismatch:readdir-order" ++
+      tag_if (negb (sortedb sleb o_names)) "viol:readdir-not-sorted"
+  | KGroups by_origin o_groups =>
+      let ord := List.map (fun sn => {| g_size := fst sn; g_tiebreaker := tiebreaker_of (snd sn); g_pkgs := canon_group_pkgs (snd sn) |}) by_origin in
+      let expect := List.map (fun g => (g_size g, g_tiebreaker g, g_pkgs g)) (canon_groups ord) in
+      tag_if (negb (list_eqb (fun a b => N.eqb (fst (fst a)) (fst (fst b)) && String.eqb (snd (fst a)) (snd (fst b)) && strs_eqb (snd a) (snd b)) expect o_groups))
+        "mismatch:layer-groups"
+  | KBde flag env times o =>
+      tag_if (negb (Z.eqb (build_date_epoch flag env times) o)) "mismatch:build-date-epoch"
+  | KSched n bad completion o_ok o_installed =>
+      let names := List.map (fun i => ("p" ++ digit i)%string) (seq 0 n) in
+      let expand := fun p : string => match bad with Some b => if String.eqb p ("p" ++ digit b)%string then None else Some p | None => Some p end in
+      let install := fun (st : list string) (_ : nat) (p e : string) => Some (st ++ [e]) in
+      match outcome string string (list string) expand install names [] (List.map Done completion) with
+      | Some st => tag_if (negb o_ok) "mismatch:model-installs-impl-fails" ++
+                   (if o_ok then tag_if (negb (strs_eqb st o_installed)) "mismatch:installed-order" else [])
+      | None => tag_if o_ok "mismatch:model-fails-impl-installs"
+      end
+  end.
